@@ -13,7 +13,9 @@ def run_prop(prop):
         t=tempfile.mkdtemp(prefix="reseed-")
         shutil.copy(os.path.join(d,"patch.diff"),os.path.join(t,"seed1.diff"))
         if os.path.isdir(os.path.join(d,"demo")): shutil.copytree(os.path.join(d,"demo"),os.path.join(t,"demo1"))
-        else: shutil.copy(os.path.join(d,"demo_test.go"),os.path.join(t,"demo1_test.go"))
+        elif os.path.exists(os.path.join(d,"demo_test.go")): shutil.copy(os.path.join(d,"demo_test.go"),os.path.join(t,"demo1_test.go"))
+        else:
+            print(name, "(no demonstration stored: skipped)", flush=True); shutil.rmtree(t,ignore_errors=True); continue
         bak=tempfile.mkdtemp(prefix="reseedbak-"); shutil.copytree(d,os.path.join(bak,"s"))
         p=subprocess.run(["python3","vlib/seedtest.py",prop,t,"1",name,m.get("needs","")],cwd=V,stdout=subprocess.PIPE,stderr=subprocess.STDOUT,text=True)
         s=p.stdout
@@ -29,4 +31,5 @@ def run_prop(prop):
         print(name, out[-1][1:], flush=True)
     return out
 with ThreadPoolExecutor(3) as ex:
-    list(ex.map(run_prop, sorted(seeds)))
+    only=[a for a in sys.argv[1:]]
+    list(ex.map(run_prop, [p for p in sorted(seeds) if not only or p in only]))
